@@ -16,9 +16,11 @@ ASSUMPTIONS = ["each context has three up commands (a failure is the middle one'
 
 def mk_ctx(c, up_ok=True, cb_ok=True, down_ok=True, slow_after=False):
     # several up commands: all of them run; the start-up failed if ANY of them failed (here the middle one), not only the last
-    return {"up": ['echo upb.%d >> "$TRACE"' % c, "exit %d" % (0 if up_ok else 3), 'sleep 0.03; echo upe.%d >> "$TRACE"' % c],
+    # (hook commands are separate shell runs: the `set -e` and the function of the first up command do not reach the before hook, whose
+    # first statement fails and is not its last)
+    return {"up": ['set -e; cb_guard() { exit 9; }; echo upb.%d >> "$TRACE"' % c, "exit %d" % (0 if up_ok else 3), 'sleep 0.03; echo upe.%d >> "$TRACE"' % c],
             "down": ['echo down.%d >> "$TRACE"; exit %d' % (c, 0 if down_ok else 6)],       # a failing down must not keep other contexts from theirs
-            "before": ['echo cb.%d >> "$TRACE"; exit %d' % (c, 0 if cb_ok else 4)],
+            "before": ['false; if type cb_guard >/dev/null 2>&1; then cb_guard; fi; echo cb.%d >> "$TRACE"; exit %d' % (c, 0 if cb_ok else 4)],
             "after": [('sleep 0.4; ' if slow_after else '') + 'echo ca.%d >> "$TRACE"' % c], "env": {"CTXN": str(c)}}
 
 
